@@ -64,19 +64,45 @@ class Repo:
             for cn, cd in m.classes.items():
                 self.classes[cn] = (m.name, cd)
 
+    def add_module(self, name, path):
+        """a sidecar module (composition lemmas written as code over the repository's classes)"""
+        m = Module(name, path)
+        self.modules[name] = m
+        for cn, cd in m.classes.items():
+            self.classes[cn] = (m.name, cd)
+        return m
+
     def find_class(self, name):
         return self.classes.get(name)
 
-    def class_member(self, cname, member):
-        """-> (kind, node) where kind in function|classmethod|staticmethod|property|setter|attr ; walks bases"""
-        seen = set()
-        while cname and cname not in seen:
-            seen.add(cname)
-            ent = self.classes.get(cname)
+    def mro(self, cname):
+        """linearisation of the repository classes above cname (left-to-right depth-first, duplicates keep their last
+        position: equals C3 for the single- and two-base hierarchies of this code base)"""
+        out = []
+
+        def visit(c):
+            ent = self.classes.get(c)
             if ent is None:
-                return None
-            mod, cd = ent
-            setter = None
+                return
+            out.append(c)
+            for b in ent[1].bases:
+                if isinstance(b, ast.Name):
+                    visit(b.id)
+        visit(cname)
+        res = []
+        for i, c in enumerate(out):
+            if c not in out[i + 1:]:
+                res.append(c)
+        return res
+
+    def class_member(self, cname, member, after=None):
+        """-> (kind, node, module, owner) where kind in function|classmethod|staticmethod|property|attr ; walks the MRO
+        (starting after class `after` when given: super())"""
+        mro = self.mro(cname)
+        if after is not None:
+            mro = mro[mro.index(after) + 1:] if after in mro else []
+        for c in mro:
+            mod, cd = self.classes[c]
             for st in cd.body:
                 if isinstance(st, ast.FunctionDef) and st.name == member:
                     kind = 'function'
@@ -91,36 +117,28 @@ class Repo:
                         elif ds.endswith('.setter'):
                             kind = 'setter'
                     if kind == 'setter':
-                        setter = (kind, st, mod, cname)
                         continue
-                    return (kind, st, mod, cname)
+                    return (kind, st, mod, c)
+                if isinstance(st, ast.ClassDef) and st.name == member:
+                    return ('class', st, mod, c)
                 if isinstance(st, ast.Assign) and len(st.targets) == 1 and isinstance(st.targets[0], ast.Name) and st.targets[0].id == member:
-                    return ('attr', st.value, mod, cname)
+                    return ('attr', st.value, mod, c)
                 if isinstance(st, ast.Assign) and len(st.targets) == 1 and isinstance(st.targets[0], ast.Tuple):
                     names = [e.id for e in st.targets[0].elts if isinstance(e, ast.Name)]
                     if member in names and isinstance(st.value, ast.Tuple):
-                        return ('attr', st.value.elts[names.index(member)], mod, cname)
+                        return ('attr', st.value.elts[names.index(member)], mod, c)
                 if isinstance(st, ast.AnnAssign) and isinstance(st.target, ast.Name) and st.target.id == member and st.value is not None:
-                    return ('attr', st.value, mod, cname)
-            if setter:
-                return setter
-            base = None
-            for b in cd.bases:
-                if isinstance(b, ast.Name) and b.id in self.classes:
-                    base = b.id
-            cname = base
+                    return ('attr', st.value, mod, c)
         return None
 
     def class_setter(self, cname, member):
-        ent = self.classes.get(cname)
-        if ent is None:
-            return None
-        mod, cd = ent
-        for st in cd.body:
-            if isinstance(st, ast.FunctionDef) and st.name == member:
-                for d in st.decorator_list:
-                    if ast.unparse(d).endswith('.setter'):
-                        return (st, mod, cname)
+        for c in self.mro(cname):
+            mod, cd = self.classes[c]
+            for st in cd.body:
+                if isinstance(st, ast.FunctionDef) and st.name == member:
+                    for d in st.decorator_list:
+                        if ast.unparse(d).endswith('.setter'):
+                            return (st, mod, c)
         return None
 
     def function(self, qual):
